@@ -368,7 +368,12 @@ func (p *Printer) stmt(out []Piece, s Stmt) []Piece {
 		}
 		return append(out, Piece{Kind: "text", Text: x.S})
 	case Print:
-		return append(out, p.tag("print", "{{", p.sp()+p.Expr(x.E)+p.sp(), "}}"))
+		inner := p.Expr(x.E)
+		l := p.sp()
+		if l == "" && len(inner) > 0 && inner[0] == '-' {
+			l = " " // "{{-1}}" would be a whitespace-control dash, not a minus sign
+		}
+		return append(out, p.tag("print", "{{", l+inner+p.sp(), "}}"))
 	case If:
 		for i, c := range x.Conds {
 			kw := "if"
